@@ -292,9 +292,9 @@ class Scheduler:
             if self.pilot is not None:
                 pass
             return
-        if self.pilot is not None:
-            self.pilot.append((self.steps, [o.tid for o in others]))
         self.site = site
+        if self.pilot is not None:
+            self.pilot.append((self.steps, [o.tid for o in others], site, t.tid))
         if self.protected is not None:
             # a thread that got the baton through the fairness rule keeps it
             # for a quantum (or until it blocks): otherwise a priority-based
